@@ -207,8 +207,17 @@ func firstTemplate(f *ast.SoyFileNode) string {
 
 // inSim runs f as a simulation (instrumented builds must not start goroutines outside one).
 func inSim(f func()) *simrt.Result {
-	return simrt.Run(simrt.Config{Budget: 2_000_000_000}, f)
+	cfg := simrt.Config{Budget: 2_000_000_000}
+	if c13SchedSeed != 0 {
+		// whatever goroutines the compilation starts (the scanners; a change may add workers) are
+		// interleaved by a seeded schedule instead of the default run-until-blocked one
+		cfg.Chooser = simrt.NewRandomChooser(c13SchedSeed, 3)
+	}
+	return simrt.Run(cfg, f)
 }
+
+// c13SchedSeed, if non-zero, seeds the goroutine schedule of the observations.
+var c13SchedSeed uint64
 
 // observeUnder observes under a map-order plan (nil = default).
 func observeUnder(c *gen.Case, o obsOpts, plan *simrt.MapPlan) (vector, *simrt.Result) {
@@ -316,6 +325,7 @@ type c13Case struct {
 	Process   bool                `json:"process,omitempty"` // compare with a fresh process (different history)
 	Unit      int                 `json:"unit,omitempty"`
 	Index     int                 `json:"index,omitempty"`
+	Sched     uint64              `json:"sched,omitempty"` // seed of the goroutine schedule of the perturbed observation (0 = default)
 }
 
 func c13Opts() gen.Opts {
@@ -377,6 +387,7 @@ func c13Check(cs *c13Case, ref vector, plan *simrt.MapPlan, o obsOpts) (*wk.Fail
 		return nil, v, res
 	}
 	out := *cs
+	out.Sched = c13SchedSeed
 	if plan != nil {
 		out.MapOrder = plan.Log
 	}
@@ -385,6 +396,9 @@ func c13Check(cs *c13Case, ref vector, plan *simrt.MapPlan, o obsOpts) (*wk.Fail
 	}
 	b, _ := json.Marshal(&out)
 	why := "a different legal map iteration order"
+	if c13SchedSeed != 0 {
+		why = "another schedule of the goroutines the compilation starts"
+	}
 	if cs.FileOrder != nil {
 		why = fmt.Sprintf("file insertion order %v", cs.FileOrder)
 	}
@@ -468,7 +482,9 @@ func C13(c *wk.Ctx) {
 			c.Emit(u)
 			return
 		}
+		c13SchedSeed = cs.Sched
 		f, _, _ := c13Check(&cs, ref, simrt.ExplicitPlan(cs.MapOrder), full)
+		c13SchedSeed = 0
 		u.Evals = 2
 		u.AddFail(f)
 		c.Emit(u)
@@ -586,6 +602,12 @@ func C13(c *wk.Ctx) {
 			// seeded runs with independent decisions per site execution
 			for k, p := range []float64{1, 1, 0.3, 0.3, 0.05, 0.05} {
 				check(simrt.RandomPlan(c.UnitSeed(run, uint64(9000+ci*16+k)), p), nil, "random_plan")
+			}
+			// the goroutines of the compilation under two seeded schedules
+			for k := 0; k < 2; k++ {
+				c13SchedSeed = c.UnitSeed(run, uint64(9500+ci*16+k)) | 1
+				check(simrt.CanonicalPlan(), nil, "goroutine_schedule")
+				c13SchedSeed = 0
 			}
 			// one site at a time
 			var sites []int
@@ -771,6 +793,13 @@ func c13Gen(c *wk.Ctx, run, ci int) (*gen.Case, int) {
 		f1.Templates = append(f1.Templates,
 			&gen.Template{Name: "cyb", Body: fwd(full(f1, f0, "cya"), ".cyc")},
 			&gen.Template{Name: "cyc", Params: []gen.Param{{Name: "b", Optional: true}}, Body: []*gen.Node{{K: "print", E: "$b"}}})
+	}
+	if run%5 == 0 && ci%4 == 3 && len(gc.Files) >= 2 {
+		// two files that do not parse: two independent errors; which one is reported may depend on the
+		// file order, but not on anything else
+		for i := 0; i < 2; i++ {
+			gc.Files[i] = &gen.File{Name: gc.Files[i].Name, Text: damage(gc.Files[i].Source(), c.UnitSeed(run, uint64(700+ci*4+i)))}
+		}
 	}
 	if ci%2 == 0 {
 		gc.GlobalsFile = true
